@@ -1,7 +1,8 @@
 #!/bin/bash
-# tools/run_all.sh [tier] [seed]  -- run every registered check once; summary on stdout
-TIER="${1:-quick}"; export VERIF_SEED="${2:-1}"
-cd /verif
-for p in C01 C02 C03 C04 C05 C06 C07 C08 C09 C10 C11 C12 C13 C14 C15 C16 C17; do
-  ./check $p $TIER 2>&1 | grep -E "^(C[0-9]+ |VIOLATION|KNOWN-FINDING|INCONCLUSIVE|  finding class)" | cut -c1-220
+# tools/run_all.sh [tier] [seed] [props...]  -- run registered checks once (from the directory this script lives in); summary on stdout
+TIER="${1:-quick}"; export VERIF_SEED="${2:-1}"; shift 2 2>/dev/null
+PROPS="${*:-C01 C02 C03 C04 C05 C06 C07 C08 C09 C10 C11 C12 C13 C14 C15 C16 C17}"
+cd "$(dirname "$0")/.." || exit 2
+for p in $PROPS; do
+  ./check $p $TIER 2>&1 | grep -E "^(C[0-9]+ |VIOLATION|KNOWN-FINDING|INCONCLUSIVE|  finding class)" | cut -c1-300
 done
